@@ -138,6 +138,7 @@ func zzH_C09_edit() {
 		nacts = len(zzEditActions)
 	}
 	steps := zzv.CfgInt("steps")
+	killKnown := true // what `cancel` leaves in the kill buffer is not documented
 	for s := 0; s < steps; s++ {
 		at := zzEditActions[zzv.Choose(0, nacts-1)]
 		a := &action{t: at}
@@ -180,13 +181,18 @@ func zzH_C09_edit() {
 		case actKillLine:
 			if ed.cx < len(ed.q) {
 				ed.cut(ed.cx, len(ed.q))
+				killKnown = true
 			}
 		case actUnixLineDiscard:
 			if ed.cx > 0 {
 				ed.cut(0, ed.cx)
 				ed.cx = 0
+				killKnown = true
 			}
 		case actYank:
+			if !killKnown {
+				return
+			}
 			k := ed.kill
 			ed.splice(ed.cx, ed.cx, k)
 			ed.cx += len(k)
@@ -206,7 +212,7 @@ func zzH_C09_edit() {
 			if len(ed.q) == 0 {
 				quit = true
 			} else {
-				ed.kill = ed.q
+				killKnown = false
 				ed.q, ed.cx = []rune{}, 0
 			}
 		case actBackwardWord:
@@ -357,6 +363,7 @@ func zzH_C09_acts() {
 		at := zzListActions[zzv.Choose(0, len(zzListActions)-1)]
 		a := &action{t: at}
 		constrained := false
+		paged, pageDir, cyBefore := false, 0, cy
 		switch at {
 		case actToggle:
 			toggleCur()
@@ -441,8 +448,8 @@ func zzH_C09_acts() {
 			}
 			constrained = true
 		case actPosition:
-			p := zzv.Choose(-2, 3)
-			a.a = []string{"-2", "-1", "0", "1", "2", "3"}[p+2]
+			p := []int{-2, -1, 1, 2, 3}[zzv.Choose(0, 4)] // pos(0) is not documented
+			a.a = []string{"-2", "-1", "", "1", "2", "3"}[p+2]
 			k := p
 			if p > 0 {
 				k = p - 1
@@ -460,17 +467,16 @@ func zzH_C09_acts() {
 			}
 			constrained = true
 		case actPageUp, actPageDown, actHalfPageUp, actHalfPageDown:
-			lines := maxItems - 1
-			if at == actHalfPageUp || at == actHalfPageDown {
-				lines = maxItems / 2
-			}
-			if lines < 1 {
-				lines = 1
-			}
+			// how far a page moves is not documented: at least one line, at most a window, in the
+			// direction of the action, stopping at the ends (never wrapping)
+			paged = true
+			pageDir = 1
 			if at == actPageDown || at == actHalfPageDown {
-				lines = -lines
+				pageDir = -1
 			}
-			move(lines, false)
+			if t.layout != layoutDefault {
+				pageDir = -pageDir
+			}
 		}
 		ok := do(a)
 		zzv.Reach("dispatched")
@@ -479,7 +485,18 @@ func zzH_C09_acts() {
 			zzv.Assert("empty-list-no-current-item", t.currentItem() == nil)
 		} else {
 			zzv.Assert("cursor-designates-existing-result", t.cy >= 0 && t.cy < n && t.currentItem() == shown[t.cy])
-			zzv.Assert("cursor-moves-as-prescribed", t.cy == cy)
+			if paged {
+				d := (t.cy - cyBefore) * pageDir
+				limit := maxItems
+				if limit < 1 {
+					limit = 1
+				}
+				atEnd := pageDir > 0 && t.cy == n-1 || pageDir < 0 && t.cy == 0
+				zzv.Assert("page-moves-one-line-to-one-window-towards-its-end", d >= 0 && d <= limit && (d >= 1 || atEnd))
+				cy = t.cy
+			} else {
+				zzv.Assert("cursor-moves-as-prescribed", t.cy == cy)
+			}
 		}
 		if constrained && n > 0 && maxItems > 0 {
 			zzv.Assert("cursor-inside-the-visible-window", t.offset >= 0 && t.cy >= t.offset && t.cy < t.offset+maxItems)
